@@ -2486,7 +2486,7 @@ def run_unit(root, unit, contracts, seed=0, perturb=None):
         ob = {"id": oid, "unit": unit.name, "kind": "ring",
               "text": f"{unit.fn}: {k} == {show(b)[:240] if not isinstance(b, list) else '[%d items]' % len(b)}" + (f" on all {len(paths)} paths" if len(paths) > 1 else ""),
               "status": "discharged" if ok else "failed", "detail": detail, "cex": cex, "backend": "ringcheck"}
-        if not ok and cex and unit.replay and k in ("result", "msm", "v"):
+        if not ok and cex and unit.replay and k in ("result", "msm", "v", "value", "normalised"):
             ob["recipe"] = unit.replay
         obs.append(ob)
     return obs, calls
